@@ -516,3 +516,30 @@ def report_boundary_splits(prog, rep, rule, pred):
     if not real:
         rep.ok(rule, 'field-boundaries', found='%d functions scanned, witness fires' % nf)
     return nf
+
+
+def unguarded_table_lookups(prog, pred):
+    """TABLE[key] reads of a dictionary constant of yabgp.common.constants with a non-constant key, in the
+    selected functions, that are not dominated by a test mentioning the same key expression (`key in TABLE`,
+    `key == CONST`): for a value outside the table the lookup raises KeyError, which a decoder turns into an
+    error for a legal input.  Returns (scanned, [(FuncInfo, node, table, key text)])."""
+    cm = prog.module(CONS_Q)
+    tables = {k for k, v in cm.assigns.items() if isinstance(v, ast.Dict)}
+    out = []
+    nfun = 0
+    for f in prog.all_functions():
+        if not pred(f):
+            continue
+        nfun += 1
+        for x in ast.walk(f.node):
+            if not (isinstance(x, ast.Subscript) and isinstance(x.ctx, ast.Load) and
+                    isinstance(x.value, (ast.Attribute, ast.Name))):
+                continue
+            nm = x.value.attr if isinstance(x.value, ast.Attribute) else x.value.id
+            if nm not in tables or isinstance(x.slice, ast.Constant):
+                continue
+            ktxt = src_of(x.slice)
+            guarded = any(v and ktxt in src_of(t) for t, v in conds_at(f.node, x))
+            if not guarded:
+                out.append((f, x, nm, ktxt))
+    return nfun, out
